@@ -650,7 +650,7 @@ theorem c07u_advValueToks_unitless {cs : CharSpec} (q : AQty) (p : QPad) (hq : q
 theorem c07u_advNone_text_word {cs : CharSpec} (q : AQty) (p : QPad) (hq : q.ok cs = true)
     (hp : p.ok cs = true) (hu : q.unit = none) (l : List Tok) (hv : q.val = .text l)
     (hw : l.head?.any (fun t => t.kind == .word) = true) : advNone (spellQty q p) = true := by
-  unfold advNone
+  unfold advNone advSepTok
   rw [c07u_advValueToks_unitless q p hq hp hu, hv]
   cases l with
   | nil => simp at hw
@@ -673,7 +673,7 @@ theorem c07u_takeWhile_all {β : Type} (p : β → Bool) (l : List β) (h : ∀ 
 theorem c07u_advNone_num {cs : CharSpec} (q : AQty) (p : QPad) (hq : q.ok cs = true)
     (hp : p.ok cs = true) (hu : q.unit = none) (n : ANum) (hv : q.val = .num n)
     (hpost : p.v.post = []) : advNone (spellQty q p) = true := by
-  unfold advNone
+  unfold advNone advSepTok
   rw [c07u_advValueToks_unitless q p hq hp hu, hv, hpost, List.append_nil]
   simp only [QPad.ok, VPad.ok, Bool.and_eq_true] at hp
   have hk := rt_spellNum_kinds n p.v.lo hp.1.1.2.1.1.1.2
